@@ -88,6 +88,16 @@ var advTemplates = []advTemplate{
 	{"index-function-spin", func(g *core.Tape) string {
 		return `local t = setmetatable({}, {__index = function(t, k) while true do end end}) return t.x`
 	}},
+	{"call-metamethod-self", func(g *core.Tape) string { return `local t = {} setmetatable(t, {__call = t}) t()` }},
+	{"index-function-recursion", func(g *core.Tape) string {
+		return `local t = setmetatable({}, {__index = function(t, k) return t[k] end}) return t.x`
+	}},
+	{"len-metamethod-recursion", func(g *core.Tape) string {
+		return `local t = setmetatable({}, {__len = function(t) return #t end}) return #t`
+	}},
+	{"tostring-recursion", func(g *core.Tape) string {
+		return `local t t = setmetatable({}, {__tostring = function() return tostring(t) end}) return tostring(t)`
+	}},
 	{"concat-doubling", func(g *core.Tape) string { return `local s = "x" while true do s = s .. s end` }},
 	{"concat-loop", func(g *core.Tape) string { return `local s = "" while true do s = s .. "0123456789" end` }},
 	{"table-growth", func(g *core.Tape) string { return `local t = {} local i = 0 while true do i = i + 1 t[i] = i end` }},
